@@ -70,10 +70,15 @@ func main() {
 		}
 		// optional ";maps=expr|expr": range loops over these (string-keyed) map expressions
 		// are iterated in sorted key order
-		sortMaps = map[string]bool{}
+		sortMaps, sortU64 = map[string]bool{}, map[string]bool{}
 		if i := strings.Index(flags, ";maps="); i >= 0 {
 			for _, e := range strings.Split(flags[i+6:], "|") {
-				sortMaps[strings.TrimSpace(e)] = true
+				e = strings.TrimSpace(e)
+				if strings.HasPrefix(e, "u:") { // uint64-keyed map
+					e = e[2:]
+					sortU64[e] = true
+				}
+				sortMaps[e] = true
 			}
 			flags = flags[:i]
 		}
@@ -166,7 +171,7 @@ func patchEtcd(etcdDir, out string, replace map[string]string) {
 	}
 }
 
-var sortMaps = map[string]bool{}
+var sortMaps, sortU64 = map[string]bool{}, map[string]bool{}
 
 func exprString(fset *token.FileSet, e ast.Expr) string {
 	var b bytes.Buffer
@@ -203,7 +208,11 @@ func rewriteMapRanges(fset *token.FileSet, f *ast.File) int {
 		}
 		rs.Key = ast.NewIdent("_")
 		rs.Value = key
-		rs.X = &ast.CallExpr{Fun: &ast.SelectorExpr{X: ast.NewIdent("vschedm"), Sel: ast.NewIdent("SortedStringKeys")}, Args: []ast.Expr{m}}
+		fn := "SortedStringKeys"
+		if sortU64[exprString(fset, m)] {
+			fn = "SortedUint64Keys"
+		}
+		rs.X = &ast.CallExpr{Fun: &ast.SelectorExpr{X: ast.NewIdent("vschedm"), Sel: ast.NewIdent(fn)}, Args: []ast.Expr{m}}
 		rs.Body.List = append(pre, rs.Body.List...)
 		return true
 	})
